@@ -3,3 +3,5 @@ import NitroVerif.Gen.Guards
 import NitroVerif.Driver.All
 import NitroVerif.Props.C19
 import NitroVerif.Props.C20
+import NitroVerif.Props.C16
+import NitroVerif.Props.C17
